@@ -146,7 +146,14 @@ fn gen_program(rng: &mut Rng, ay_writes: bool) -> Vec<u8> {
                 _ => rng.below(80000),
             },
         };
-        emit_delay(&mut code, d);
+        // now and then the program sleeps until the next interrupt right after (or shortly after)
+        // a write: EI; HALT (the ROM's IM 1 handler does not write to the ULA port)
+        if rng.chance(1, 6) {
+            emit_delay(&mut code, rng.below(3) * 4 * rng.below(8));
+            code.extend_from_slice(&[0xFB, 0x76]);
+        } else {
+            emit_delay(&mut code, d);
+        }
     }
     let [lo, hi] = PROG.to_le_bytes();
     code.extend_from_slice(&[0xC3, lo, hi]);
@@ -167,6 +174,8 @@ fn park(m: &mut Machine, at: u16) {
     rf.iff2 = false;
     rf.halted = false;
     rf.sp = 0xFF00;
+    rf.im = 1;
+    rf.iy = 0x5C3A;
     m.set_regs(&rf);
 }
 
